@@ -263,7 +263,7 @@ def run(ctx):
             tasks.append(("periodic", cfg))
     if ctx.thorough:
         tasks += [("pi24", (lo, lo + (1 << 18))) for lo in range(0, 1 << 24, 1 << 18)]
-    ctx.pmap(w_any, tasks)
+    ctx.pmap(w_any, tasks, ambient=True)
     ctx.cov["exhaustive"] = True
     ctx.cov["configurations"] = cfgs
     ctx.samples += [{"kind": "id", "carrier": "DF21", "squawk": TABLE[0x0AAA], "msg": id_frame("DF21", 0x0AAA, 4)},
